@@ -63,6 +63,13 @@ func c01Pool() []c01Val {
 		c01Val{"(1,2)", "multi", system.Collection{system.Integer(1), system.Integer(2)}},
 		c01Val{"(nameA,1)", "multi.mixed", system.Collection{lib.NameA(), system.Integer(1)}},
 		c01Val{"Patient", "resource", lib.Patient()},
+		// a collection whose items are collections (the option validator accepts it item by item), equal ones included
+		c01Val{"((1,2),(1,2),'x')", "multi.nested", system.Collection{system.Collection{system.Integer(1), system.Integer(2)}, system.Collection{system.Integer(1), system.Integer(2)}, system.String("x")}},
+		c01Val{"(({}))", "multi.nested", system.Collection{system.Collection{system.Collection{}}}},
+		// decimals whose coefficient carries a positive exponent (1e2 is the number 100 with exponent 2), as values and as elements
+		c01Val{"dec.1e2", "dec.exp", lib.Dec("1e2")}, c01Val{"dec.25E+5", "dec.exp", lib.Dec("25E+5")}, c01Val{"dec.1e-7", "dec.exp", lib.Dec("1e-7")}, c01Val{"dec.-3e9", "dec.exp", lib.Dec("-3e9")},
+		c01Val{"f.dec.1E+3", "fhir.dec.exp", &dtpb.Decimal{Value: "1E+3"}}, c01Val{"f.dec.1.5e3", "fhir.dec.exp", &dtpb.Decimal{Value: "1.5e3"}}, c01Val{"f.dec.1e-05", "fhir.dec.exp", &dtpb.Decimal{Value: "1e-05"}},
+		c01Val{"f.qty.1.5e3", "fhir.qty.exp", &dtpb.Quantity{Value: &dtpb.Decimal{Value: "1.5e3"}, Unit: fhir.String("mg"), Code: fhir.Code("mg")}},
 		// FHIR elements with missing parts (a caller can build them: they are valid protos)
 		c01Val{"f.qty.novalue", "fhir.qty.partial", &dtpb.Quantity{Unit: fhir.String("mg")}},
 		c01Val{"f.dec.empty", "fhir.dec.partial", &dtpb.Decimal{}},
